@@ -153,8 +153,10 @@ func checkCase(c Case) fw.Outcome {
 	}
 	out.Labels = append(out.Labels, "both-compile")
 	masked := map[string]string{}
+	file := map[string]string{}
 	for _, n := range notes {
 		masked[n.Path] = n.Module
+		file[n.Path] = n.File
 	}
 	mask := func(p string) bool {
 		for mp := range masked {
@@ -182,7 +184,8 @@ func checkCase(c Case) fw.Outcome {
 			return out
 		}
 		wantNS := "urn:verif:" + mod
-		if n.Module() != mod || n.Namespace() != wantNS {
+		// (a node of a submodule reports the submodule's name as its module: see DESIGN 10.7)
+		if (n.Module() != mod && n.Module() != file[p]) || n.Namespace() != wantNS {
 			out.Violation = fmt.Sprintf("augmenting node %s: module %q namespace %q, want module %q namespace %q\n%s", p, n.Module(), n.Namespace(), mod, wantNS, gsrc)
 			return out
 		}
